@@ -19,6 +19,14 @@ import (
 
 func init() {
 	Checks["C01"] = checkC01
+	Replayers["C01/engine-line"] = func(data json.RawMessage) (bool, string) {
+		var d []string
+		if json.Unmarshal(data, &d) != nil || len(d) < 2 {
+			return false, "bad replay data"
+		}
+		_, msg := engineLine(d[0], d[1:])
+		return msg != "", msg
+	}
 	Replayers["C01/engine"] = func(data json.RawMessage) (bool, string) {
 		var d []string
 		if json.Unmarshal(data, &d) != nil || len(d) != 2 {
@@ -174,9 +182,36 @@ func engineTriple(f, text string) (cls, msg string) {
 	return "", ""
 }
 
+// engineLine: every move of a legal line is accepted by Engine.Move and leads where it should.
+func engineLine(f string, line []string) (cls, msg string) {
+	ctx := context.Background()
+	e := engine.New(ctx, "verif", "verif", search.AlphaBeta{Eval: search.Leaf{Eval: eval.Material{}}}, engine.WithOptions(engine.Options{Hash: 0}))
+	if err := e.Reset(ctx, f); err != nil {
+		return "", ""
+	}
+	g, err := ref.GameFromFEN(f)
+	if err != nil {
+		return "", ""
+	}
+	for i, t := range line {
+		rm, ok := g.Cur().FindMove(t)
+		if !ok {
+			return "", ""
+		}
+		if err := e.Move(ctx, t); err != nil {
+			return "engine-rejects", fmt.Sprintf("the engine rejects the legal move %s (move %d of the line %v from %s, half-move clock %d): %v", t, i+1, line, f, g.CurClock(), err)
+		}
+		g.Push(rm)
+		if got, want := e.Position(), g.FEN(); got != want {
+			return "engine-plays", fmt.Sprintf("after %v from %s the engine reports %q; the line leads to %q", line[:i+1], f, got, want)
+		}
+	}
+	return "", ""
+}
+
 func checkC01(c *harness.Check) {
 	mustAnchors(c)
-	c.Rule = "lock-step BFS closure from tagged seeds (de-duplicated on position value) + completely enumerated families (K+X v K, castling under one attacker, en passant x king x slider, corner pieces with rights, promotion fronts, collinear pins); every node: {filtered PseudoLegalMoves} and LegalMoves vs reference legal set incl. kind/piece/capture, no duplicates; the same at the engine's door (Engine.Move with text: every origin/destination pair of a legal move x every promotion suffix on the promotion, corner and en-passant families - accepted exactly when legal, and then the game is the reference successor); distinct_nontrivial = nodes with >=1 legal move counted by distinct (set of move kinds, in-check) class x seed"
+	c.Rule = "lock-step BFS closure from tagged seeds (de-duplicated on position value) + completely enumerated families (K+X v K, castling under one attacker, en passant x king x slider, corner pieces with rights, promotion fronts, collinear pins); every node: {filtered PseudoLegalMoves} and LegalMoves vs reference legal set incl. kind/piece/capture, no duplicates; the same at the engine's door (Engine.Move with text: every origin/destination pair of a legal move x every promotion suffix on the promotion, corner and en-passant families - accepted exactly when legal, and then the game is the reference successor; and every legal two-move line from four roots with the half-move clock at 98..149 - the game goes on past 100); distinct_nontrivial = nodes with >=1 legal move counted by distinct (set of move kinds, in-check) class x seed"
 	visit := func(n *Node) {
 		c.Evaluations.Add(1)
 		c.Traces.Add(1)
@@ -220,6 +255,25 @@ func checkC01(c *harness.Check) {
 				c.Evaluations.Add(1)
 				if cls, msg := engineTriple(f, pair+suffix); msg != "" {
 					c.Violation(ecc.sig("C01/"+cls, f+" "+pair+suffix), msg, "C01/engine", []string{f, pair + suffix})
+				}
+			}
+		}
+	}
+	// ... and late in a long game: the fifty-move draw has to be CLAIMED, the game goes on past 100
+	// half-moves, and every legal move - pawn moves and captures that restart the clock included - is
+	// still a move the engine must accept (two plies deep from roots with the clock at 98..149)
+	for _, f := range []string{"r3k2r/4p3/8/8/8/8/4P3/R3K2R w KQkq - 98 80", "r3k2r/4p3/8/8/8/8/4P3/R3K2R b KQkq - 99 80", "4k3/8/8/3pP3/8/8/8/4K2R w K d6 100 90", "k7/p7/P7/8/8/7p/7P/7K w - - 149 120"} {
+		g0, err := ref.GameFromFEN(f)
+		if err != nil {
+			continue
+		}
+		for _, m1 := range g0.Cur().Legal() {
+			g1 := g0.Clone()
+			g1.Push(m1)
+			for _, m2 := range g1.Cur().Legal() {
+				c.Evaluations.Add(1)
+				if cls, msg := engineLine(f, []string{m1.String(), m2.String()}); msg != "" {
+					c.Violation(ecc.sig("C01/"+cls, f+" "+m1.String()+" "+m2.String()), msg, "C01/engine-line", []string{f, m1.String(), m2.String()})
 				}
 			}
 		}
